@@ -43,9 +43,9 @@ private:
 
   uint16_t pop()
   {
-    uint16_t value = stack[--sp];
-    sp &= 7;
-    return value;
+    // The stack pointer wraps before it is used as an index.
+    sp = (sp - 1) & 7;
+    return stack[sp];
   }
 
   void set_parity(uint8_t value);
